@@ -1,22 +1,33 @@
 #!/usr/bin/env python3
-"""collect_f19.py [out-dir]: add the inputs of violations found on the UNCHANGED tree (out/C11.violations.ndjson) to the input lists of
-the known findings that are identified by input: F19 (`fits_stays_fitting`) and F24 (`wider_not_more_lines` without a site).
-A build-time tool: the checks never add to known_findings.json."""
+"""collect_f19.py [out-dir]: add the inputs of violations found on the UNCHANGED tree (out/C11.violations.ndjson) to the input list of
+the known finding that is identified by input: F19 (`fits_stays_fitting`, and `wider_not_more_lines` with the site "the wider
+result does not fit its own width although the narrower one fits"). A build-time tool: the checks never add to known_findings.json."""
 import hashlib, json, sys
 d = sys.argv[1] if len(sys.argv) > 1 else "/verif/out"
 k = json.load(open("/verif/known_findings.json"))
-for prefix, clause, want_site in (("F19", "fits_stays_fitting", None), ("F24", "wider_not_more_lines", False)):
-    f = next(x for x in k["known"] if x["id"].startswith(prefix))
-    have = set(f["match"]["text_sha256"])
-    new = 0
-    for l in open(f"{d}/C11.violations.ndjson"):
-        v = json.loads(l)
-        if v.get("clause") != clause or (want_site is False and "[site" in v.get("detail", "")):
-            continue
+f = next(x for x in k["known"] if x["id"].startswith("F19"))
+have = set(f["match"]["text_sha256"])
+new = 0
+for l in open(f"{d}/C11.violations.ndjson"):
+    v = json.loads(l)
+    if not (v.get("clause") == "fits_stays_fitting" or (v.get("clause") == "wider_not_more_lines" and "the wider result does not fit its own width although the narrower one fits" in v.get("detail", ""))):
+        continue
+    h = hashlib.sha256(v["case"]["text"].encode()).hexdigest()
+    if h not in have:
+        have.add(h); new += 1
+        print("F19 new:", v["case"].get("label"), v["detail"][:100])
+f["match"]["text_sha256"] = sorted(have)
+print("F19", new, "added;", len(have), "inputs")
+# F27: first clause without a site (identified by input as well)
+g = next(x for x in k["known"] if x["id"].startswith("F27"))
+have = set(g["match"]["text_sha256"]); new = 0
+for l in open(f"{d}/C11.violations.ndjson"):
+    v = json.loads(l)
+    if v.get("clause") == "fits_narrower_same_result" and "[site" not in v.get("detail", ""):
         h = hashlib.sha256(v["case"]["text"].encode()).hexdigest()
         if h not in have:
             have.add(h); new += 1
-            print(prefix, "new:", v["case"].get("label"), v["detail"][:100])
-    f["match"]["text_sha256"] = sorted(have)
-    print(prefix, new, "added;", len(have), "inputs")
+            print("F27 new:", v["case"].get("label"), v["detail"][:100])
+g["match"]["text_sha256"] = sorted(have)
+print("F27", new, "added;", len(have), "inputs")
 json.dump(k, open("/verif/known_findings.json", "w"), indent=1, ensure_ascii=False)
